@@ -130,6 +130,44 @@ class Call:
         return f"<Call {self.callee} @{self.body.path}:bb{self.bb}>"
 
 
+_PINNED = None
+
+
+def _pinned():
+    global _PINNED
+    if _PINNED is None:
+        import json as _json
+        import os as _os
+        try:
+            with open(_os.path.join(_os.path.dirname(_os.path.abspath(__file__)), "pinned_names.json")) as fh:
+                _PINNED = _json.load(fh)
+        except OSError:
+            _PINNED = {"params": {}, "upvars": {}}
+    return _PINNED
+
+
+def _canonical_names(body, j):
+    """Present parameters / captured variables under the names they had on the pinned tree (tools/gen_pinned_names.py)
+    when the body still has the same parameter types / the same number of captures: position carries the semantics, the
+    spelling does not, so a rename must not matter to any rule."""
+    pn = _pinned()
+    ent = pn["params"].get(j["path"])
+    argc = j.get("argc", 0)
+    locs = j["locals"]
+    if ent and len(ent["names"]) == argc and [locs[i]["ty"] for i in range(1, argc + 1)] == ent["tys"]:
+        for i, nm in enumerate(ent["names"]):
+            if nm is not None and locs[i + 1].get("name") != nm:
+                locs[i + 1]["name_actual"] = locs[i + 1].get("name")
+                locs[i + 1]["name"] = nm
+    uv = pn["upvars"].get(j["path"])
+    cur = j.get("upvars") or []
+    if uv and len(uv) == len(cur):
+        for u, nm in zip(cur, uv):
+            if u.get("name") != nm:
+                u["name_actual"] = u.get("name")
+                u["name"] = nm
+
+
 class Body:
     def __init__(self, j, crate):
         self.j = j
@@ -145,6 +183,7 @@ class Body:
         self.locals = j["locals"]
         self.blocks = j["blocks"]
         self.upvars = j.get("upvars", [])
+        _canonical_names(self, j)
         self._calls = None
         self._succ = None
         self._pred = None
@@ -751,7 +790,8 @@ class Program:
 
     def children(self, body, kind=None):
         """Closures/coroutines whose parent is `body`."""
-        out = [b for b in self.bodies.values() if b.parent == body.path and b.kind == "Closure"]
+        inl = set(getattr(body, "inlined", []) or [])
+        out = [b for b in self.bodies.values() if (b.parent == body.path or b.parent in inl) and b.kind == "Closure"]
         return sorted(out, key=lambda b: b.path)
 
     def coroutine_of(self, fn_path):
